@@ -144,13 +144,22 @@ func init() {
 	register("c20_open", func(w *World, op Op) Obs {
 		name := op.str("conn")
 		cside, pside := net.Pipe()
-		sside := &c20Conn{Conn: pside, tlsFlag: op.str("kind") != "plain"}
+		sside := &c20Conn{Conn: pside, tlsFlag: op.str("kind") != "plain" && op.str("kind") != "ssl"}
 		if !sside.tlsFlag {
 			w.ensureCert()
 		}
 		c20Conns[name] = sside
 		cl := newClient(cside)
 		w.conns[name] = cl
+		if op.str("kind") == "ssl" {
+			// the implicit-TLS port: the server starts with the TLS handshake (certificate set
+			// through SetTLSCertificates); the client side decides whether it ever handshakes
+			go func() {
+				defer close(cl.done)
+				w.imap.HandleSSLConnection(sside)
+			}()
+			return Obs{"ok": true}
+		}
 		go func() {
 			defer close(cl.done)
 			w.imap.HandleConnection(sside)
@@ -217,7 +226,11 @@ func init() {
 		c20Conns[name] = sside
 		cl := newClient(cside)
 		w.conns[name] = cl
-		srv := sasl.NewServer("", "", w.auth.url(), "example.com")
+		authURL := w.auth.url()
+		if c20Back != nil {
+			authURL = c20Back.url()
+		}
+		srv := sasl.NewServer("", "", authURL, "example.com")
 		// the Server object of this piped connection can be shut down like a listening one
 		// (c20_srv_shutdown with srv = the connection's name): Shutdown waits for the handler
 		started := make(chan struct{})
